@@ -59,14 +59,15 @@ def _align(old, new):
         if tag != 'replace':
             continue
         os_, ns_ = old[i1:i2], new[j1:j2]
-        if len(os_) == len(ns_):
+        nt0 = lambda t: ' '.join(w for w in t.replace('*', ' * ').replace('&', ' & ').split() if w != 'const')
+        if len(os_) == len(ns_) and all(nt0(o[1]) == nt0(n[1]) for o, n in zip(os_, ns_)):
             pairs = list(zip(os_, ns_))
         else:
             # unequal stretch: pair in order within each type
             pairs, used = [], set()
             for o in os_:
                 for k, n in enumerate(ns_):
-                    if k not in used and n[1] == o[1]:
+                    if k not in used and nt0(n[1]) == nt0(o[1]):
                         used.add(k)
                         pairs.append((o, n))
                         break
@@ -157,6 +158,15 @@ def _canon_functions(merged, table):
     merged.setdefault('_renamed', {}).update({'function ' + a: {a: b} for a, b in ren.items()})
 
 
+def known_functions():
+    """qualified names of every function of the pinned tree (all analysed configurations)"""
+    if not os.path.exists(TABLE):
+        return set()
+    with open(TABLE) as fh:
+        d = json.load(fh)
+    return set(v['q'] for v in d['functions'].values()) | set(d.get('other_configurations', []))
+
+
 def canon(merged, table=None):
     """rewrite renamed locals/parameters of merged facts to their frozen names (in place); returns {function: {current: frozen}}"""
     if table is None:
@@ -225,6 +235,11 @@ if __name__ == '__main__':
     os.environ.pop('VERIF_ALPHA', None)
     m = F.extract_ast('Q0', use_cache=False, raw=True)
     t = generate(m)
+    others = set()
+    for cfg in ('tracing', 'assert', 'call', 'nofile'):
+        mm = F.extract_ast(cfg, use_cache=False, raw=True)
+        others |= {f['q'] for f in mm['functions'].values()}
+    others -= {v['q'] for v in t.values()}
     # the call-threaded driver's handler functions are alternative definitions: they are in Q0 as well (both drivers are parsed)
     with open(TABLE, 'w') as fh:
         json.dump({'_comment': 'Names of parameters and locals on the pinned tree (see rules/localnames.py): used only to present a RENAMED local '
